@@ -153,6 +153,23 @@ def replay(rec, ctx):
         if not core.close(got, base, rtol=1e-7, atol=1e-9):
             bad("fractional_abundance[ndarray]:differs-from-scalar-call", f"{got} vs {base}")
             break
+    # 2-D profiles handed over as transposed views (column-major in memory), the donor present at some points only: every
+    # point's fractions belong to that point
+    if dP:
+        fa0 = IB.fractional_abundance(ad, el, ne, te, **dict(donor, tcx_donor_n=0.0))
+        base0 = [float(np.asarray(fa0[z]).ravel()[0]) for z in range(Z + 1)]
+        mask = np.array([[1.0, 0.0, 1.0], [0.0, 0.0, 1.0]])
+        for lay, T in (("C", lambda a: np.ascontiguousarray(a.T)), ("transposed-view", lambda a: a.T)):
+            ft = IB.fractional_abundance(ad, el, T(np.full((2, 3), ne)), T(np.array([[te, 2 * te, te], [2 * te, te, te]])), **dict(donor, tcx_donor_n=T(mask * nd)))
+            for (i, j), mk in np.ndenumerate(mask.T):
+                got = [float(np.asarray(ft[z])[i, j]) for z in range(Z + 1)]
+                want_ = base if mk else base0
+                if not core.close(got, want_, rtol=1e-7, atol=1e-9):
+                    bad(f"fractional_abundance[2-D ndarray, {lay}]:point-holds-another-points-fractions", f"at [{i},{j}] {got} vs {want_}")
+                    break
+            else:
+                continue
+            break
     fvar = np.array([0.0, 0.5, 1.0])
     f1 = dict(donor)
     if dP:
